@@ -357,7 +357,7 @@ impl RequestSpec {
             Framing::Chunked(chunks) => {
                 let n = chunks.len();
                 for (i, c) in chunks.iter().enumerate() {
-                    let mal_here = body_malformed && i == n.saturating_sub(1).min(1.min(n - 1));
+                    let mal_here = body_malformed && i == if n >= 2 { 1 } else { 0 };
                     // size line
                     let mut size = hex(c.data.len(), c.upper_hex);
                     if mal_here && self.malformed == Some(Malformed::ChunkBadSizeChar) {
@@ -527,6 +527,8 @@ pub struct HandlerProgram {
     pub body: BodySpec,
     /// service returns `Err` (turned into an error response by the framework)
     pub fail: bool,
+    /// `ResponseBuilder::force_close()`
+    pub force_close: bool,
 }
 
 impl HandlerProgram {
@@ -538,7 +540,16 @@ impl HandlerProgram {
             headers: vec![],
             body,
             fail: false,
+            force_close: false,
         }
+    }
+    pub fn close(mut self) -> Self {
+        self.force_close = true;
+        self
+    }
+    pub fn failing(mut self) -> Self {
+        self.fail = true;
+        self
     }
     pub fn pend(mut self, n: u8) -> Self {
         self.pend_before = n;
